@@ -396,21 +396,27 @@ Proof.
   intros p s. unfold set_transmission. destruct p as [|b off len first last]; cbn.
   - repeat split; auto.
   - destruct (if first then Some [] else incoming (sr (nd s))); cbn.
-    + destruct last; unfold upd; cbn; repeat split; auto.
+    + destruct last; [destruct (snap_ahead _ _)|]; unfold upd; cbn; repeat split; auto.
     + repeat split; auto.
 Qed.
 
+(* a transfer is complete ("done") when its last piece arrives and the assembled file is a snapshot
+   ahead of the node's position *)
 Lemma set_transmission_done : forall p s,
   snd (set_transmission p s) =
   match p with
-  | SData _ _ _ first true => first || match incoming (sr (nd s)) with Some _ => true | None => false end
+  | SData b off len first true =>
+    match (if first then Some [] else incoming (sr (nd s))) with
+    | Some ps => snap_ahead (assemble_snap (ps ++ [(b, off, len)])) (applied (nd s))
+    | None => false
+    end
   | _ => false
   end.
 Proof.
   intros p s. unfold set_transmission. destruct p as [|b off len first last]; auto.
-  destruct first; cbn.
+  destruct (if first then Some [] else incoming (sr (nd s))) as [ps|]; cbn.
+  - destruct last; [destruct (snap_ahead _ _)|]; reflexivity.
   - destruct last; reflexivity.
-  - destruct (incoming (sr (nd s))); destruct last; reflexivity.
 Qed.
 
 Lemma send_frame : forall d m s, nd (send d m s) = nd s /\ exc (send d m s) = exc s /\ tnow (send d m s) = tnow s.
@@ -439,7 +445,7 @@ Proof.
   intros p s1 s H1 H2 H3. unfold set_transmission, load_dump_ok. destruct p as [|b off len first last]; cbn.
   - now rewrite H1, H2, H3.
   - rewrite H1. destruct (if first then Some [] else incoming (sr (nd s))); cbn; [|now rewrite H1, H2, H3].
-    destruct last; unfold upd; cbn; now rewrite ?H1, H2, H3.
+    rewrite H2. destruct last; [destruct (snap_ahead _ _)|]; unfold upd; cbn; now rewrite ?H1, ?H2, H3.
 Qed.
 
 (* C09_load_restores, failure part: a transfer that is incomplete, or that completes a dump which
@@ -462,7 +468,7 @@ Proof.
   pose proof (set_transmission_done p s) as Hd0.
   unfold same_app in A. destruct A as (A1 & A2 & A3 & A4 & A5 & A6 & A7 & A8 & A9 & A10).
   assert (Hinc : incoming (sr (nd s1)) = incoming (sr (nd s))) by now rewrite A6.
-  rewrite Hinc, <- Hd0 in Hd. clear Hd0 Hinc.
+  rewrite Hinc, A3, <- Hd0 in Hd. clear Hd0 Hinc.
   pose proof (set_transmission_ok_ext p s1 s A6 A3 A8) as Hok.
   destruct (set_transmission p s1) as [s2 done]. cbn [fst snd] in *.
   destruct Hf as (F1 & F2 & F3 & F4 & F5 & F6 & F7 & F8 & F9 & F10).
@@ -537,7 +543,9 @@ Proof.
   pose proof (set_transmission_done p s) as Hd0.
   assert (Hinc : incoming (sr (nd s1)) = incoming (sr (nd s))).
   { unfold same_app in A. destruct A as (_ & _ & _ & _ & _ & A & _). rewrite A. auto. }
-  rewrite Hinc, <- Hd0, Hdone in Hd. clear Hd0 Hinc.
+  assert (Happ : applied (nd s1) = applied (nd s)).
+  { unfold same_app in A. destruct A as (_ & _ & A & _). exact A. }
+  rewrite Hinc, Happ, <- Hd0, Hdone in Hd. clear Hd0 Hinc Happ.
   destruct (set_transmission p s1) as [s2 done]. cbn [fst snd] in *. subst done.
   destruct Hf as (F1 & F2 & F3 & F4 & F5 & F6 & F7 & F8 & F9 & F10).
   unfold same_app in A. destruct A as (A1 & A2 & A3 & A4 & A5 & A6 & A7 & A8 & A9 & A10).
